@@ -84,7 +84,7 @@ META = {
             "(gen_table_enqueue), Track's kind decision for every pin (meta / remote with the synchronous unpin and its two outcomes / local) = track (gen_table_track, gen_table_track_sync), "
             "Untrack, Recover (GetExists else Status) = recover, RecoverAll (failed listing returned, loop leaves at the first error) = raLoop for every listing (gen_table_recoverAll), "
             "Status's decision tree = statusR / statusOf on every state with the daemon's reads working or not (gen_table_status), addError, localStatus's per-pin switch = statusAllOf "
-            "(gen_table_localStatus); two wrong tables refuted (full-queue branch without SetError, channels swapped). Other overlaps than Recover x Untrack: a Track overlapping a Recover / "
+            "(gen_table_localStatus), statusAll (localStatus, then the operation table laid over it, then the filter) = listingR (gen_table_statusAll); two wrong tables refuted (full-queue branch without SetError, channels swapped). Other overlaps than Recover x Untrack: a Track overlapping a Recover / "
             "RecoverAll whose status read came first is harmless — the stale switch is deduplicated against the Track's operation even before its channel send (track_overlapping_recover_harmless, "
             "all states of the interleaved system) and re-issues the pin recorded NOW (stale_pin_switch_uses_current_pin); a stale unpin_error switch after a completed Track un-pins again but ends in "
             "pin_error and the next round re-pins (proved witness); a StatusAll torn between the daemon read and the table read (a worker completes in between) lists a pinned cid as unexpectedly_unpinned "
@@ -94,5 +94,5 @@ META = {
             "model, and the Lean property clauses are evaluated on the implementation's own observations.",
     "note": "Trusted: Lean kernel, hand-written model/spec, the gated daemon and stable-point detection of the harness. The suspected defect 'a re-track with another mode "
             "is deduplicated' is real behaviour but ends in pin_error (Status asks the daemon for the recorded mode) and is repaired by recover: no finding.",
-    "technique": "decision tables of the operation tracker and of the tracker's entry points (enqueue, Track, Untrack, Recover, RecoverAll, Status, localStatus) regenerated from the Go syntax tree and interpreted by the model (theorems for all inputs) + regenerated source text of the anchored functions and the function inventory of the anchored files checked against the transcribed snapshot (rfl) + Lean 4 inductive invariant over an LTS + schedule-level differential correspondence against a gated daemon",
+    "technique": "decision tables of the operation tracker and of the tracker's entry points (enqueue, Track, Untrack, Recover, RecoverAll, Status, statusAll, localStatus) regenerated from the Go syntax tree and interpreted by the model (theorems for all inputs) + regenerated source text of the anchored functions and the function inventory of the anchored files checked against the transcribed snapshot (rfl) + Lean 4 inductive invariant over an LTS + schedule-level differential correspondence against a gated daemon",
 }
